@@ -19,7 +19,7 @@ theorem C01_output_in_range (ch : ℕ) (f : Frame ℝ) : ∀ x ∈ convertFrame 
   have hl := clamp_mem f.left (-(1 : ℝ)) 1 (by norm_num)
   have hr := clamp_mem f.right (-(1 : ℝ)) 1 (by norm_num)
   unfold convertFrame at hx
-  simp only [lit_1, lit_2, lit_0, r32_real] at hx
+  simp only [lit_1, lit_2, lit_0, r32_real, nanToZero_real] at hx
   split at hx
   · simp only [List.mem_singleton] at hx
     subst hx
